@@ -36,6 +36,18 @@ def main():
             lines = [l for l in p.stdout.splitlines() if l.startswith(("VIOLATION", "  clause", "HARNESS-ERROR", "KNOWN-FINDING"))]
             results["%s/%s" % (c, tier)] = dict(exit=p.returncode, wall_s=round(time.time() - t, 1), lines=lines[:12], head=subprocess.run(
                 ["git", "-C", REPO, "rev-parse", "--short", "HEAD"], capture_output=True, text=True).stdout.strip())
+            # keep one replay artefact per check and confirm that `./check <id> --replay` reproduces it on the mutated tree
+            rp = sorted(f for f in (os.listdir(env["VERIF_REPLAY_DIR"]) if os.path.isdir(env["VERIF_REPLAY_DIR"]) else []) if f.startswith(c + "-"))
+            if p.returncode == 1 and rp:
+                keep = os.path.join(d, "replays")
+                os.makedirs(keep, exist_ok=True)
+                for old_f in os.listdir(keep):
+                    if old_f.startswith(c + "-"):
+                        os.remove(os.path.join(keep, old_f))
+                shutil.copy(os.path.join(env["VERIF_REPLAY_DIR"], rp[0]), os.path.join(keep, rp[0]))
+                q = subprocess.run([os.path.join(V, "check"), c, "--replay", os.path.join(keep, rp[0])], capture_output=True, text=True, env=env, cwd=V)
+                results["%s/%s" % (c, tier)]["replay_file"] = "replays/" + rp[0]
+                results["%s/%s" % (c, tier)]["replay_reproduces_on_mutant"] = (q.returncode == 1)
             print(sid, c, tier, "exit", p.returncode, "|", (lines[1] if len(lines) > 1 else (lines[0] if lines else ""))[:160])
     finally:
         subprocess.run(["git", "-C", REPO, "checkout", "--", "."], check=True)
